@@ -339,6 +339,8 @@ F2_B = {"nodes": [{"cls": "W", "values": [["d", {"d": [["a", {"l": [{"d": [["k",
 
 
 def run_witness(ctx, finding):
+    if common.run_script_witness(ctx, finding):
+        return
     w = finding.get("witness") or {}
     if w.get("kind") == "producing-task":
         from concurrent.futures import ThreadPoolExecutor
